@@ -94,7 +94,8 @@ def run_trace(case, cls=scripted.Scripted, extra_kwargs=None):
     span = list(range(3))
     t = -2 if case.get('tneg') else 1
     script = list(zip(hist, var))
-    m = scripted.make_scripted(span, {1: script}, opts['preHook'] == 'exc', opts['postHook'] == 'exc', cls=cls)
+    hk = case.get('hook_exc', True)
+    m = scripted.make_scripted(span, {1: script}, hk if opts['preHook'] == 'exc' else False, hk if opts['postHook'] == 'exc' else False, cls=cls)
     m.A = [1.0, 2.0, 3.0]
     m.B = [-1.0, -2.0, -3.0]
     m.X = [7.0, 8.0, 9.0]
@@ -108,7 +109,15 @@ def run_trace(case, cls=scripted.Scripted, extra_kwargs=None):
               errors=opts['errors'], catch_first_error=opts['cfe'])
     if extra_kwargs:
         kw.update(extra_kwargs)
-    res, cause, _ = refsolve.call_outcome(m.solve_t, t, **kw)
+    entry = case.get('entry', 'solve_t')
+    if entry == 'solve_period':
+        res, cause, _ = refsolve.call_outcome(m.solve_period, 1, **kw)
+    elif entry == 'solve':
+        res, cause, val = refsolve.call_outcome(m.solve, start=1, end=1, **kw)
+        if res == 'value':
+            res = str(bool(val[2][0]))
+    else:
+        res, cause, _ = refsolve.call_outcome(m.solve_t, t, **kw)
     changed = scripted.changed_cells(before, m)
     obs = {
         'result': res,
@@ -180,6 +189,29 @@ def run_traces(block, tier, acc, cls=scripted.Scripted, extra_kwargs=None, post=
                                       'solve_t disagrees with the documented state machine')
                     elif post is not None:
                         post(case, m, acc)
+            if first:
+                # the other entry points forward every option unchanged; a failing hook may raise any exception type
+                extras = [dict(entry='solve_period'), dict(entry='solve')]
+                if opts['preHook'] == 'exc' or opts['postHook'] == 'exc':
+                    extras += [dict(hook_exc='SolutionError'), dict(hook_exc='NonConvergenceError'), dict(hook_exc='KeyError')]
+                for extra in extras:
+                    case = dict({'kind': 'trace', 'opts': opts, 'hist': hist, 'variants': var, 'prev': 0, 'tneg': False}, **extra)
+                    acc.evaluations += 1
+                    try:
+                        with guard(5):
+                            want, obs, m = run_trace(case, cls, extra_kwargs)
+                    except CaseTimeout:
+                        acc.violation('trace:timeout', case, 'termination', 'no result within 5 s')
+                        continue
+                    except Exception as e:
+                        acc.violation('trace:unexpected-exception:%s' % type(e).__name__, case, 'no exception', repr(e)[:300], 'replaying a model trace raised')
+                        continue
+                    acc.nontrivial += 1
+                    if extra.get('entry') == 'solve' and want['result'] == 'ValueError':
+                        want = dict(want, untouched=True)
+                    if want != obs:
+                        acc.violation(trace_key(case, want, obs) + ':' + (extra.get('entry') or 'hook-' + extra['hook_exc']), case, want, obs,
+                                      'solve_t disagrees with the documented state machine')
             first = False
         acc.sample({'opts': opts, 'hist': hist, 'expect': {k: s[k] for k in ('result', 'status', 'iters', 'k')}}, limit=3)
 
